@@ -51,7 +51,7 @@ def signature(rec, rej):
     return "C17|%s" % why
 
 
-def validate(wd, name, trace, universe, ev, verdicts, workers=None, timeout=3000):
+def validate(wd, name, trace, universe, ev, verdicts, workers=None, timeout=14400):
     recs = vlib.read_ndjson(trace)
     r = vlib.tlc("MC_TraceLex", cfg="MC_TraceLex.cfg", wd=wd, env={"TRACE": trace, "UNIVERSE": universe},
                  tags=("REJECT",), workers=workers, timeout=timeout, out_file=os.path.join(wd, "tlc-" + name + ".out"))
